@@ -1,12 +1,15 @@
 package sim
 
 import (
+	"bytes"
+	"context"
 	"errors"
 	"fmt"
 	"strings"
 	"time"
 
 	"github.com/hack-pad/hackpadfs"
+	htar "github.com/hack-pad/hackpadfs/tar"
 )
 
 // mutateInvalid derives an invalid name from a valid one by the boundary mutations of ValidPath.
@@ -137,8 +140,18 @@ func runC04(t *T) {
 	ref, refDir, cleanup := osTwin(t)
 	defer cleanup()
 	_ = refDir
-	k := c.Draw(lsCount)
-	ls := buildLayerStack(t, k, ref)
+	k := c.Draw(lsCount + 1)
+	var ls *layerStack
+	if k == lsCount {
+		// a tar FS whose unpacking failed: invalid names are still invalid
+		data := fixtureTar(t)
+		r, err := htar.NewReaderFS(context.Background(), bytes.NewReader(data[:len(data)/2+c.Draw(300)]), htar.ReaderFSOptions{})
+		must(t, err)
+		<-r.Done()
+		ls = &layerStack{name: "tar (unpacking failed)", family: "tar-failed", fs: r, alpha: []string{"d", "f", "e", "top"}, readOnly: true, cleanup: func() {}}
+	} else {
+		ls = buildLayerStack(t, k, ref)
+	}
 	defer ls.cleanup()
 	odd := c.Chance(1, 3) && !ls.readOnly && len(ls.mounts) == 0
 	if odd {
@@ -191,6 +204,9 @@ func runC04(t *T) {
 			continue
 		}
 		// ordinary step, mirrored on the os twin, to reach arbitrary states (and for the converse)
+		if ls.family == "tar-failed" {
+			continue
+		}
 		o := g.next()
 		if ls.readOnly && o.Mutating() {
 			continue
